@@ -3,6 +3,7 @@ CONSTANTS N = 2
   PipeName = "irce"
   ObsName = "a"
   Prev0 = 0
+  WithU = FALSE
 INVARIANT WeightsNonPositive
 INVARIANT Accumulate
 PROPERTY RejuvenateKeepsWeights
